@@ -66,9 +66,12 @@ def runV1Exact (unknown value : List UInt8) : String :=
   match LC.V1Glue.findAllIndex unknown value with
   | [] => "fuzzy"
   | occ => joinWith " " (occ.map (fun ab =>
-      let r := LC.V1Glue.exactRange gt ab.1 ab.2
+      let lohi := LC.V1Glue.trimOcc goClasses.isSpace unknown ab.1 ab.2
+      let r := LC.V1Glue.exactRange gt lohi.1 lohi.2
       match targetRange toks r.1 (r.2 + 1) with
-      | some xy => s!"{xy.1}:{xy.2 - xy.1}"
+      | some tr =>
+        let xy := LC.V1Glue.exactBytes ab.1 ab.2 lohi tr
+        s!"{xy.1}:{xy.2 - xy.1}"
       | none => "PANIC"))
 
 end Driver.V1
